@@ -71,7 +71,7 @@ func genStream(c *simkit.Choices, x *simkit.Ctx, like *model.TypeEntry) ([]simki
 		}
 		fallthrough
 	default:
-		oo := model.OpsOpts{Extended: true, NonFinite: true, BigUint: true, Hints: true, MaxDepth: 4, Budget: 14, MaxStr: 40}
+		oo := model.OpsOpts{Extended: true, NonFinite: true, BigUint: true, Hints: true, MaxDepth: 4, Budget: 14, MaxStr: 40, DeepChains: true}
 		if x.Thorough {
 			oo.Budget, oo.MaxDepth = 30, 8
 		}
